@@ -446,6 +446,21 @@ class ContractSet:
             if not m:
                 raise SpecError('bad shared: %r' % head)
             self.shared[pkg + '.' + m.group(1)] = m.group(2).strip()
+        elif word in ('maporder', 'nondeterministic'):
+            # maporder <Func> <reason> / nondeterministic <Func> <reason>: accepts one source of nondeterminism found by the scan
+            # (shared.nondeterminism); the function is named as in `func` directives: Name or (c *T) Name
+            m = re.match(r'(maporder|nondeterministic)\s+(\([^)]*\)\s*\w+|\w+)\s+(.*)', ' '.join(g))
+            if not m:
+                raise SpecError('bad %s: %r' % (word, head))
+            nm = m.group(2)
+            m2 = re.match(r'\(\s*\w+\s+(\*?)(\w+)\s*\)\s*(\w+)', nm)
+            if m2:
+                full = '(%s%s.%s).%s' % (m2.group(1), pkg, m2.group(2), m2.group(3))
+            else:
+                full = pkg + '.' + nm
+            if full not in prog.funcs:
+                raise SpecError('%s: no function %s' % (word, full))
+            self.__dict__.setdefault('nondet', {})[(word, full)] = m.group(3).strip()
         elif word == 'assume-impl':
             # assume-impl io.IScanner = *io.StringScanner
             m = re.match(r'assume-impl\s+(\S+)\s*=\s*(\S+)', ' '.join(g))
